@@ -2,7 +2,8 @@
 
 proof:   lean/Koreo/Props/C08.lean (`strip_no_directives` by mutual induction, `strip_idempotent`,
          `request_body_no_directives`, `annotation_truthful`, `create_owner_if/iff`, `patch_adds_owner_when_missing`,
-         `patch_preserves_live_owners_partial` + the F7 witness `target_owner_refs_drop_live_owners`)
+         `patch_preserves_live_owners` for every target — the patch branch is the repaired one, koreo-core fa30b95,
+         former finding F7; its witness corpus/C08/target_owner_refs.json is replayed first on every run and must pass)
 tie:     end-to-end ResourceFunctions whose layers (inline resource | ResourceTemplate, inline overlays, overlayRef
          ValueFunction, create.overlay — literally or through inputs) carry directive keys nested in maps and list
          items; every body sent is compared with the model's (whole body, decoded annotation, address)
@@ -21,7 +22,6 @@ import gen_rf678 as g
 
 PREFIX = "C8"
 PARENT_UID = g.OWNER_REF["uid"]
-F7_CLASS = "target-specifies-ownerReferences"
 
 REF_VARIANTS = {
     "absent": "absent",
@@ -186,7 +186,7 @@ def oracle(prog: dict, b: dict) -> tuple[str, str] | None:
             before, after = g.owner_uids(stored), g.owner_uids(merged)
             if own and PARENT_UID not in before and PARENT_UID not in after:
                 return "patch-adds-owner", "patch of an object lacking the parent's reference did not add it"
-            if not own and PARENT_UID in after and PARENT_UID not in before and not listed:
+            if not own and PARENT_UID in after and PARENT_UID not in before:
                 return "patch-adds-owner", "patch added the parent's reference although the function should not own the object"
             lost = [u for u in before if u not in after]
             if lost:
@@ -196,10 +196,6 @@ def oracle(prog: dict, b: dict) -> tuple[str, str] | None:
             if isinstance(live_refs, list) and any(x not in new_refs for x in live_refs):
                 return "patch-preserves-live-owners", "a live owner reference was altered by the patch"
     return None
-
-
-def f7_classifier(case) -> bool:
-    return case.get("clause") == "patch-preserves-live-owners" and target_specifies_owner_refs(case["prog"])
 
 
 # ------------------------------------------------------------------ correspondence
@@ -331,8 +327,8 @@ def examine(ck: Check, prog: dict, b: dict, ans, label: str):
     if bad:
         clause, what = bad
         seen = sum(1 for v in ck.violations if v["case"].get("clause") == clause)
-        if (target_specifies_owner_refs(prog) and clause == "patch-preserves-live-owners") or seen >= 3:
-            small = prog      # known class, or enough minimised examples of this clause already
+        if seen >= 3:
+            small = prog      # enough minimised examples of this clause already
         else:
             small = shrink(prog, clause)
         if seen < 40:
@@ -348,11 +344,8 @@ def examine(ck: Check, prog: dict, b: dict, ans, label: str):
         ck.disagree({"prog": prog}, "prepared", obs["prepare"], "program does not prepare")
         return
     mine = impl_request(obs)
-    if target_specifies_owner_refs(prog) and prog.get("stored") is not None:
-        # inside the F7 class the oracle alone decides (DESIGN 2.6): a later repair of the patch payload
-        # must neither raise an alarm nor be hidden
-        ck.count("f7-class:correspondence-not-required")
-        return
+    if target_specifies_owner_refs(prog):
+        ck.count("target-lists-owners:" + ("live-present" if prog.get("stored") is not None else "absent"))
     want = model_request(ans, b, prog)
     if want == "skip":
         ck.count("comparator-raised")
@@ -378,7 +371,6 @@ def corpus_cases():
 
 def run(tier: str) -> int:
     ck = Check("C08", tier)
-    ck.classifiers[F7_CLASS] = f7_classifier
     ck.trusted = [
         "Lean 4.33.0 kernel; axioms of every theorem ⊆ {propext, Classical.choice, Quot.sound}",
         "models: Koreo.strip (Directives.lean), lean/Koreo/Payload.lean (_prepare_for_api, _updated_owner_refs, "
@@ -391,8 +383,7 @@ def run(tier: str) -> int:
         "targets do not set Koreo's own last-applied annotation (theorem own_last_applied_is_overwritten shows the corner)",
         "ownerReferences lists hold objects (the API server guarantees it for live objects); the parent's reference has a string uid",
         "JSON objects have distinct keys (Python dicts)",
-        "owner preservation is claimed for targets that do not themselves specify metadata.ownerReferences (finding F7: "
-        "class " + F7_CLASS + ")",
+        "live owner references are free of Koreo directive keys (a patch that adds the parent re-sends stripped copies)",
     ]
     ck.prove(extractors=["RfDefaults"])
     if tier == "thorough":
@@ -441,7 +432,8 @@ def run(tier: str) -> int:
              "at the top level; owning / non-owning, parent in the same / another / no namespace, namespaced and "
              "cluster-scoped; first reconciled against an empty cluster, then against live objects (minimal, or what "
              "the first pass created — drifted or matching) whose ownerReferences are absent | [] | null | [other] | "
-             "[other,third] | [parent] | [other,parent,third]; ~12% of targets list owners themselves (F7 class), ~3% "
+             "[other,third] | [parent] | [other,parent,third]; ~12% of targets list owners themselves (the former F7 class, "
+             "whose witness corpus/C08/target_owner_refs.json is replayed first), ~3% "
              "have unusable annotations; non-trivial = the target carries directive keys and a POST or PATCH was sent; "
              "distinct by layer contents+scope+template form+live variant+method",
     )
